@@ -209,6 +209,44 @@ def handle (ws : List String) : String :=
       let sp := Spec.errClass kind ++ "|" ++ flag true ++ "|" ++ framesOut (Spec.trace files limit sc)
       reply m sp (traceDev sc kind)
     | _, _, _, _, _, _, _ => "bad-op"
+  | ["etostr", k] =>
+    let tk : Option ThisKind := match k with
+      | "undef" => some .undef | "null" => some .null | "num" => some .prim | "str" => some .prim | "bool" => some .prim
+      | "obj" => some (.object none none) | "objn" => some (.object (some "N") none) | "objm" => some (.object none (some "M"))
+      | "objnm" => some (.object (some "N") (some "M")) | "obje" => some (.object (some "") (some "M")) | _ => none
+    match tk with
+    | some tk =>
+      let out := fun (o : Option String) => match o with | none => "throw:TypeError" | some s => strOut s
+      reply (out (errorProtoToString tk)) (out (Spec.errorProtoToString tk)) (if tk = .prim ∨ tk = .undef then "tostring_non_object_this" else "-")
+    | none => "bad-op"
+  | ["emsg", "engine", k, t] =>
+    match str? t with
+    | some t =>
+      let em : Option EngineMsg := match k with
+        | "evaltok" => some (.evalToken t) | "json" => some (.jsonChar t)
+        | "ident" => some (.unresolvable t) | "nonfn" => some (.notFunction t) | _ => none
+      match em with
+      | some em =>
+        let fmtOK := match em with
+          | .evalToken t => sprintf0OK t.toList
+          | .jsonChar c => sprintf0OK (c ++ "'").toList
+          | _ => true
+        if !fmtOK then "bad-op" else
+        let out := fun (p : String × String) => p.1 ++ "|" ++ strOut p.2
+        reply (out (engineMsg em)) (out (Spec.engineMsg em)) (join (Spec.engineMsgDevs em))
+      | none => "bad-op"
+    | none => "bad-op"
+  | ["emsg", r, ctor, m] =>
+    let route : Option Route := match r with | "new" => some .new_ | "call" => some .call | "make" => some .make | _ => none
+    match route, optStr? m with
+    | some route, some arg =>
+      let out := fun (o : ErrObs) =>
+        "run=" ++ strOut o.runText ++ "|mt=" ++ (if o.msgIsString then "string" else "undefined") ++
+        "|m=" ++ (if o.msgIsString then strOut o.msg else "-") ++ "|om=" ++ (if o.ownMessage then "1" else "0") ++
+        "|on=" ++ (if o.ownName then "1" else "0") ++ "|s=" ++ strOut o.str ++ "|h=" ++ strOut o.stackHead ++
+        "|nt=" ++ (if o.nativeTop then "1" else "0")
+      reply (out (errObs route ctor arg)) (out (Spec.errObs route ctor arg)) (join (Spec.errObsDevs route ctor arg))
+    | _, _ => "bad-op"
   | ["climit", tl, sl, n, d] =>
     -- trace limit tl (`d` = the default of New()), stack-depth limit sl, n × Copy(), error below d nested calls
     match (if tl = "d" then some newLimits.trace else int? tl), int? sl, n.toNat?, d.toNat? with
